@@ -734,3 +734,17 @@ func MatchLogfmtAttrs(pairs []LPair, exp []ExpAttr, requireQuote bool) error {
 	}
 	return nil
 }
+
+// AttrsOf builds []slog.Attr from an attribute list deterministically (no draws),
+// so that the same call can be issued several times with fresh, equal arguments.
+func AttrsOf(as []ExpAttr) slog.Attrs {
+	var out slog.Attrs
+	for _, a := range as {
+		if a.IsGroup {
+			out = append(out, slog.NewGroupedAttr(a.Key, AttrsOf(a.Group)...))
+			continue
+		}
+		out = append(out, typedAttr(a))
+	}
+	return out
+}
